@@ -13,7 +13,7 @@ CHECKS = {
          "3/C06"),
  "C04": ("exploration",
          "Hypothesis program generation (signatures, curry splits, groupings) vs hand-nested construction + call-binding model; exhaustive Catalan groupings",
-         "Generated chains with exec-built classes of generated signatures; classes constructed by __init__ or by a custom __new__, optionally declared @service; every grouping/split must equal hand nesting (types, target identity, arguments, construction log); each template call is judged against an independent model of Python call binding (itself validated against real calls). All Catalan groupings up to 6 operators enumerated; the rest sampled.",
+         "Generated chains with exec-built classes of generated signatures; classes constructed by __init__ or by a custom __new__, parameter names incl. ctor/cls, pool-valued ordinary arguments, optionally declared @service; every grouping/split must equal hand nesting (types, target identity, arguments, construction log); each template call is judged against an independent model of Python call binding (itself validated against real calls). All Catalan groupings up to 6 operators enumerated; the rest sampled.",
          "Trusts Python's own call semantics as ground truth for the binding model (cross-checked on every complete argument list); argument values are ints and pool instances.",
          "3/C04"),
  "C07": ("exploration",
@@ -63,12 +63,12 @@ CHECKS = {
          "3/C05"),
  "C18": ("exploration",
          "Hypothesis-generated hostile YAML documents with side-effect canaries (import marker file, recording callables)",
-         "Documents valid except for one python/* tag (all PyYAML kinds, three spellings) or unregistered !tag at generated positions (root node, sections, pipeline, nested in lazy/eager tag arguments, mapping keys, values merged with `<<`, logging section, behind aliases); load() must raise, the canary module must not be imported (sys.modules + marker file) and no canary callable may be called or instantiated.",
+         "Documents valid except for one python/* tag (all PyYAML kinds, three spellings) or unregistered !tag at generated positions (root node, sections, pipeline, nested in lazy/eager tag arguments, mapping keys, values merged with `<<` (also nested), !!omap/!!pairs items, `=` values, logging section, behind aliases); load() must raise, the canary module must not be imported (sys.modules + marker file) and no canary callable may be called or instantiated.",
          "Calls of real os/subprocess targets are not observed, only rejection; canaries make import/call/instantiation observable. Thorough tier adds an atheris byte-level fuzz target when atheris is installable.",
          "3/C18"),
  "C01": ("fault_enumeration",
          "Hypothesis scenario generation + exhaustive fault product against the real runtime in a forked worker; identity-based cause oracle",
-         "Failing payloads of every flavour x ~57 failure kinds (Exception subclasses, BaseExceptions, all falsy and truthy return values, KeyboardInterrupt raised or as real SIGINT) x 6 registration modes x both runners are enumerated exhaustively without bystanders, and sampled with bystanders, several simultaneous failures, cancellation-absorbing bystanders, delays, accept delays and switch intervals; a further test runs the same runner instance twice. The blocking call must end within 20 s, must not return normally without a KeyboardInterrupt and must raise RuntimeError caused (through exception groups, by identity) only by injected failures.",
+         "Failing payloads of every flavour x ~57 failure kinds (Exception subclasses, BaseExceptions, all falsy and truthy return values, KeyboardInterrupt raised or as real SIGINT) x 6 registration modes x both runners are enumerated exhaustively without bystanders, and sampled with bystanders, several simultaneous failures, synchronously failing plain callables, cancellation-absorbing bystanders, delays, accept delays and switch intervals; a further test runs the same runner instance twice. The blocking call must end within 20 s, must not return normally without a KeyboardInterrupt and must raise RuntimeError caused (through exception groups, by identity) only by injected failures.",
          "Thread interleavings are sampled, not enumerated (a fifth of the scenarios run under harness-owned line-level delays inside the runner modules); bounded liveness (20 s) stands for 'never keeps running'; accept()/run() executes in the main thread of a forked worker per scenario.",
          "3/C01"),
  "C02": ("fault_enumeration",
@@ -78,12 +78,12 @@ CHECKS = {
          "3/C02"),
  "C03": ("exploration",
          "Hypothesis submission histories (steady and shutdown-race phases) in a forked worker; exactly-once / argument / context / adopt-result oracle",
-         "Generated numbers of payloads and services per flavour with generated arguments, (callables of several kinds; service classes that refine a service class of another flavour) submitted before start, at start, during the first polling cycles and later by concurrent outside threads, from payloads of every flavour and from their cancellation cleanup; counted at quiescence plus five polling periods; a second phase races shutdown() against adopt storms while payloads with long (shielded) cleanup keep the runtime in its cleanup window; services that finish and are dropped while new ones are created, 25-70 payloads of one flavour, and line-level schedule perturbation (settrace delays) inside the runner modules for concurrent submitters.",
+         "Generated numbers of payloads and services per flavour with generated arguments, (callables of several kinds; keyword names an API might claim; service classes that refine a service class of another flavour or have value semantics) submitted before start, at start, during the first polling cycles and later by concurrent outside threads, from payloads of every flavour and from their cancellation cleanup; counted at quiescence plus five polling periods; a second phase races shutdown() against adopt storms while payloads with long (shielded) cleanup keep the runtime in its cleanup window; services that finish and are dropped while new ones are created, 25-70 payloads of one flavour, and line-level schedule perturbation (settrace delays) inside the runner modules for concurrent submitters.",
          "Sampled interleavings, partly under line-level delays inside the runner and service modules; 'none is lost' judged within 20 s; adopt calls after shutdown began are judged only inside observed cleanup intervals.",
          "3/C03"),
  "C10": ("exploration",
          "Hypothesis execute/adopt sequences in a forked worker; identity of result/exception evaluated in the worker, liveness of bystanders afterwards",
-         "A finite core (payload flavour x calling context x each of ~50 outcomes, one execute per scenario, 520 scenarios) is enumerated completely in both tiers; beyond it 1-15 execute calls per scenario over flavour x caller context x outcome x arguments x kind of callable, two concurrent outside callers, interleaved with adopts, callers acting the moment they start; exactly-once start with exact arguments in the runtime's own loop / trio run, identical result or exception object for the caller, bystanders keep beating, accept() ends only on shutdown().",
+         "A finite core (payload flavour x calling context x each of ~50 outcomes, one execute per scenario, 520 scenarios) is enumerated completely in both tiers; beyond it 1-15 execute calls per scenario over flavour x caller context x outcome x arguments x kind of callable x keyword names (incl. self, payload, timeout), two concurrent outside callers, interleaved with adopts, callers acting the moment they start; exactly-once start with exact arguments in the runtime's own loop / trio run, identical result or exception object for the caller, bystanders keep beating, accept() ends only on shutdown().",
          "One blocking cross-loop direction per scenario; exceptions that Python's future plumbing converts are excluded; executed payloads are short.",
          "3/C10"),
  "C11": ("exploration",
